@@ -100,7 +100,7 @@ var ruleQueryDiscipline = &core.Rule{ID: "R10.4", Min: 8,
 			r := rs[0]
 			iff := core.IfOf(r.Body)
 			if iff != nil {
-				if call, ok := iff.Cond.(*ssa.Call); ok && call.Block() == r.Body && len(call.Call.Args) == 2 && isPath(call.Call.Args[1]) {
+				if call, ok := iff.Cond.(*ssa.Call); ok && call.Block() == r.Body && (len(call.Call.Args) == 2 || isSlicesEqualFuncBytes(call)) && isPath(call.Call.Args[1]) {
 					// arg0: field #0 of the element
 					elemPath := false
 					if fld, ok := elemFieldLoad(r, call.Call.Args[0]); ok && fld == pathFieldOf(r.ElemAddr) {
@@ -115,6 +115,8 @@ var ruleQueryDiscipline = &core.Rule{ID: "R10.4", Min: 8,
 						if eq := call.Call.StaticCallee(); eq != nil && core.InMod(eq) {
 							okB, whyB := pathEqShape(eq)
 							s.Check(okB, eq.Name()+": full path equality", c.Pos(eq.Pos()), "same length and every segment bytes.Equal", whyB)
+						} else if isSlicesEqualFuncBytes(call) {
+							s.OK("path equality: slices.EqualFunc with bytes.Equal", c.Pos(call.Pos()), "same length and every segment bytes.Equal (library contract)")
 						} else {
 							s.Bad("path equality helper", c.Pos(call.Pos()), "path comparison is not a module function that can be inspected")
 						}
@@ -274,6 +276,7 @@ var ruleQueryDiscipline = &core.Rule{ID: "R10.4", Min: 8,
 			}
 		}
 		// E + F + G: stores to the verdict flag
+		predVals := false
 		nStores := 0
 		for _, f := range c.SrcFuncs() {
 			for _, b := range f.Blocks {
@@ -307,6 +310,28 @@ var ruleQueryDiscipline = &core.Rule{ID: "R10.4", Min: 8,
 						cond, val := core.StripNot(de.Cond, de.Val)
 						switch x := cond.(type) {
 						case *ssa.Call:
+							if h := x.Call.StaticCallee(); val && f == obj && h != nil && core.InMod(h) && h.Blocks != nil && !m.fam[h] && h != matcher {
+								// judgement predicate: helper(qs[matched], value bytes)
+								qi, ri := -1, -1
+								for i, a := range x.Call.Args {
+									if sl, ok := a.(*ssa.Slice); ok && sl.X == ssa.Value(obj.Params[1]) && valueSpan(sl, valCall) {
+										ri = i
+									}
+									if ld, ok := a.(*ssa.UnOp); ok && ld.Op == token.MUL {
+										if ia, ok := ld.X.(*ssa.IndexAddr); ok && ia.X == qsArg && ia.Index == matched {
+											qi = i
+										}
+									}
+								}
+								if qi >= 0 && ri >= 0 {
+									if okP, whyP := judgePredicate(h, qi, ri); okP {
+										how = "judgement predicate " + h.Name() + ": no accepted values, or one equals the trimmed value bytes"
+										predVals = true
+									} else {
+										s.Bad(h.Name()+": judgement predicate", c.Pos(h.Pos()), whyP)
+									}
+								}
+							}
 							if val && core.CalleeIs(&x.Call, "bytes", "Equal") {
 								// one side an accepted value (element of a [][]byte), the other TrimSpace(b[start:start+len])
 								for _, pr := range [][2]ssa.Value{{x.Call.Args[0], x.Call.Args[1]}, {x.Call.Args[1], x.Call.Args[0]}} {
@@ -362,6 +387,9 @@ var ruleQueryDiscipline = &core.Rule{ID: "R10.4", Min: 8,
 					}
 				}
 			}
+		}
+		if predVals {
+			okVals = true // the predicate helper was verified to range over all accepted values
 		}
 		s.Check(okVals, obj.Name()+": every accepted value is compared", c.Pos(judge.Pos()), "range over all accepted values of the matched query", "the judgement does not range over all accepted values of the matched query")
 	}}
@@ -530,4 +558,98 @@ func pathFieldOf(ea *ssa.IndexAddr) int {
 		}
 	}
 	return -1
+}
+
+// isSlicesEqualFuncBytes: call is slices.EqualFunc(a, b, bytes.Equal) (an
+// instantiation of the generic): equal lengths and element-wise bytes.Equal.
+func isSlicesEqualFuncBytes(call *ssa.Call) bool {
+	g := call.Call.StaticCallee()
+	if g == nil || len(call.Call.Args) != 3 {
+		return false
+	}
+	o := g.Origin()
+	if o == nil {
+		o = g
+	}
+	if o.Pkg == nil || o.Pkg.Pkg.Path() != "slices" || o.Name() != "EqualFunc" {
+		return false
+	}
+	fn, ok := core.Unwrap(call.Call.Args[2]).(*ssa.Function)
+	return ok && fn.Pkg != nil && fn.Pkg.Pkg.Path() == "bytes" && fn.Name() == "Equal"
+}
+
+// judgePredicate verifies a bool helper h(q, raw) used as the member judgement:
+// it returns true only when q has no accepted values or one of them equals
+// bytes.TrimSpace(raw), and it ranges over all accepted values. qIdx/rawIdx are
+// the parameter positions of the matched query and of the value bytes.
+func judgePredicate(h *ssa.Function, qIdx, rawIdx int) (bool, string) {
+	if h.Blocks == nil || h.Signature.Results().Len() != 1 {
+		return false, "not a bool function with a body"
+	}
+	raw := h.Params[rawIdx]
+	// the accepted-values list: a [][]byte field of the query parameter (through its local copy)
+	isVals := func(v ssa.Value) bool {
+		u, ok := v.(*ssa.UnOp)
+		if !ok || u.Op != token.MUL {
+			return false
+		}
+		fa, ok := u.X.(*ssa.FieldAddr)
+		if !ok {
+			return false
+		}
+		sl, ok := fa.Type().Underlying().(*types.Pointer).Elem().Underlying().(*types.Slice)
+		if !ok || !core.IsByteSlice(sl.Elem()) {
+			return false
+		}
+		return true
+	}
+	ranged := false
+	var rng fde.RangeElem
+	for _, b := range h.Blocks {
+		for _, in := range b.Instrs {
+			if v := valueOf(in); v != nil && isVals(v) {
+				if rs := fde.FindRangeOver(h, v); len(rs) == 1 {
+					ranged, rng = true, rs[0]
+				}
+			}
+		}
+	}
+	if !ranged {
+		return false, "the helper does not range over all accepted values of the query"
+	}
+	for _, r := range core.Returns(h) {
+		v, isC := core.ConstBool(r.Results[0])
+		if !isC {
+			return false, "a verdict that is not a constant at the return"
+		}
+		if !v {
+			continue
+		}
+		why := ""
+		for _, de := range core.DominatingConds(r.Block()) {
+			cond, val := core.StripNot(de.Cond, de.Val)
+			switch x := cond.(type) {
+			case *ssa.Call:
+				if val && core.CalleeIs(&x.Call, "bytes", "Equal") {
+					for _, pr := range [][2]ssa.Value{{x.Call.Args[0], x.Call.Args[1]}, {x.Call.Args[1], x.Call.Args[0]}} {
+						tr, ok := pr[1].(*ssa.Call)
+						if ok && core.CalleeIs(&tr.Call, "bytes", "TrimSpace") && tr.Call.Args[0] == ssa.Value(raw) && pr[0] == ssa.Value(rng.Load) {
+							why = "equal"
+						}
+					}
+				}
+			case *ssa.BinOp:
+				if ln, ok := x.X.(*ssa.Call); ok && core.IsBuiltin(&ln.Call, "len") && isVals(ln.Call.Args[0]) && core.IsConstInt(x.Y, 0) && ((x.Op == token.EQL && val) || (x.Op == token.NEQ && !val)) {
+					if why == "" {
+						why = "empty"
+					}
+				}
+			}
+		}
+		if why == "" {
+			return false, "the helper says yes without (no accepted values, or an accepted value equal to the trimmed value bytes)"
+		}
+	}
+	_ = qIdx
+	return true, ""
 }
